@@ -10,6 +10,7 @@ import (
 	"math/rand/v2"
 	"strings"
 	"sync"
+	"time"
 
 	"github.com/pion/dtls/v3/pkg/crypto/elliptic"
 )
@@ -67,15 +68,28 @@ type vfCfg struct {
 	Verify      bool // certificate verification on (RootCAs/ServerName, ClientCAs)
 	Padding     bool
 	Store       bool
+	LeafOnly    bool          // the certificate message carries the leaf alone (no CA certificate behind it)
+	IvC, IvS    time.Duration // flight interval per side (0 = default 1 s)
+	NoBackoffC  bool
 }
 
 func (c vfCfg) FP() string {
 	return fmt.Sprintf("%s/%s/v%s-%s/ems%d%d/ca%d%v/cid%d,%d/srtp%d/alpn%d/mtu%d/hv%v/cv%d/vfy%v/pad%v/st%v",
 		c.Suite.Name, c.CertKind, c.CVer, c.SVer, c.EMSc, c.EMSs, c.ClientAuth, c.ClientCert, c.CIDc, c.CIDs,
-		c.SRTP, c.ALPN, c.MTU, c.HelloVerify, c.Curves, c.Verify, c.Padding, c.Store)
+		c.SRTP, c.ALPN, c.MTU, c.HelloVerify, c.Curves, c.Verify, c.Padding, c.Store) + map[bool]string{true: "/leafonly", false: ""}[c.LeafOnly]
 }
 
 func (c vfCfg) Is13() bool { return c.Suite.Auth == "tls13" }
+
+// Chain is the credential role presents under this configuration.
+func (c vfCfg) Chain(role string) tls.Certificate {
+	crt := vfGetPKI().Leaf(c.CertKind, role)
+	if c.LeafOnly {
+		crt.Certificate = crt.Certificate[:1]
+	}
+
+	return crt
+}
 
 func vfCIDGen(n int) func() []byte {
 	var mu sync.Mutex
@@ -123,9 +137,9 @@ func (c vfCfg) Options(cStore, sStore SessionStore) (co []ClientOption, so []Ser
 		cO = append(cO, WithPSK(psk), WithPSKIdentityHint([]byte("vf-client-id")))
 		sO = append(sO, WithPSK(psk), WithPSKIdentityHint([]byte("vf-server-hint")))
 	default:
-		sO = append(sO, WithCertificates(pki.Leaf(c.CertKind, "server")))
+		sO = append(sO, WithCertificates(c.Chain("server")))
 		if c.ClientCert {
-			cO = append(cO, WithCertificates(pki.Leaf(c.CertKind, "client")))
+			cO = append(cO, WithCertificates(c.Chain("client")))
 		}
 		if c.Verify {
 			cO = append(cO, WithRootCAs(pki.Pool), WithServerName(vfServerName))
@@ -186,6 +200,15 @@ func (c vfCfg) Options(cStore, sStore SessionStore) (co []ClientOption, so []Ser
 	}
 	co = vfCO(cO...)
 	so = vfSO(sO...)
+	if c.IvC > 0 {
+		co = append(co, WithFlightInterval(c.IvC))
+	}
+	if c.IvS > 0 {
+		so = append(so, WithFlightInterval(c.IvS))
+	}
+	if c.NoBackoffC {
+		co = append(co, WithDisableRetransmitBackoff(true))
+	}
 	if c.Suite.Auth != "psk" && c.Suite.Auth != "ecdhepsk" {
 		so = append(so, WithClientAuth(c.ClientAuth))
 		if c.Verify || c.ClientAuth >= VerifyClientCertIfGiven {
@@ -251,6 +274,7 @@ func vfGenCompatCfg(r *rand.Rand, suite vfSuiteInfo) vfCfg {
 	c.ALPN = r.IntN(3)
 	c.MTU = []int{0, 0, 256, 100, 60}[r.IntN(5)]
 	c.HelloVerify = r.IntN(3) != 0
+	c.LeafOnly = r.IntN(2) == 0
 	c.Curves = r.IntN(4)
 	c.Padding = r.IntN(4) == 0
 	c.Store = suite.Auth != "tls13" && r.IntN(4) == 0
